@@ -8,6 +8,7 @@ operation in `Proofs/Heap*.lean`; this file states it in the property's words, a
 refusal theorems, the non-empty-name invariant and the id theorems.
 -/
 import OdmlModel.Proofs.HeapNames
+import OdmlModel.Proofs.HeapIds
 import OdmlModel.Proofs.Uuid
 import OdmlModel.Props.C03
 
@@ -140,6 +141,55 @@ open Py.Uuid in
 /-- A canonical id is not empty (so the fallback name is never empty). -/
 theorem canonical_nonempty (s : List Char) (h : Canonical s) : s ≠ [] := canonical_ne_nil h
 
+
+/-! ## 5. Ids stay canonical along every history -/
+
+open Py.Uuid in
+/-- The id texts an operation brings in are canonical UUID strings. -/
+def CanonOp (op : Op) : Prop := op.IdsSat (fun s => Canonical s.toList)
+
+open Py.Uuid in
+/-- "its id is always a canonical UUID string", over the full quantifier: in every state reachable
+    by any history of structural operations, renames and `new_id` calls - accepted or refused -
+    whose constructors and `new_id` calls assign ids the way `ctorId` / `newId` do, every
+    allocated object carries a canonical id.  No operation other than a constructor or an
+    accepted `new_id` ever writes an id (the frame lemmas of `HeapNames.lean`). -/
+theorem ids_canonical_after_any_history (ops : List Op) (hid : ∀ op ∈ ops, CanonOp op)
+    (x : Nat) (hx : x < (run empty ops).size) :
+    Canonical ((run empty ops).node x).id.toList :=
+  idsSat_run (P := fun s => Canonical s.toList) ops hid x hx
+
+open Py.Uuid in
+/-- A constructor call, whatever `oid` it is handed, meets the hypothesis of
+    `ids_canonical_after_any_history`. -/
+theorem ctor_op_canonical (k : Kind) (name : String) (oid : Option (List Char)) (fresh : Nat)
+    (parent : Option Nat) (argsOk : Bool) :
+    CanonOp (.construct k name (String.ofList (ctorId oid fresh)) parent argsOk) := by
+  show Canonical (String.ofList (ctorId oid fresh)).toList
+  rw [String.toList_ofList]; exact ctorId_canonical oid fresh
+
+open Py.Uuid in
+/-- An accepted `new_id` call meets it too; a rejected one (`none`) brings in no id at all. -/
+theorem new_id_op_canonical (x : Nat) (oid : Option (List Char)) (fresh : Nat) :
+    CanonOp (.newId x ((newId oid fresh).map String.ofList)) := by
+  cases h : newId oid fresh with
+  | none => exact trivial
+  | some s =>
+    show Canonical (String.ofList s).toList
+    rw [String.toList_ofList]; exact newId_canonical oid fresh s h
+
+/-- The fallback name is the id: after clearing the name of a free object in a reachable state
+    the name is a canonical UUID string, hence not empty. -/
+theorem cleared_name_is_canonical_id (ops : List Op) (hid : ∀ op ∈ ops, CanonOp op) (x : Nat)
+    (hx : x < (run empty ops).size) (hk : ((run empty ops).node x).kind ≠ .doc)
+    (hne : ((run empty ops).node x).name ≠ "")
+    (hidn : ((run empty ops).node x).name ≠ ((run empty ops).node x).id)
+    (hfree : ((run empty ops).node x).parent = none) :
+    Py.Uuid.Canonical (((rename (run empty ops) x "").1.node x).name).toList := by
+  rw [rename_empty_falls_back_to_id _ x hk hne hidn hfree]
+  simp only [upd_same]
+  exact ids_canonical_after_any_history ops hid x hx
+
 /-! ## Non-vacuity -/
 
 open Py.Uuid in
@@ -151,5 +201,17 @@ open Py.Uuid in
 example : String.ofList (render 0x9b6c0f1e00004000800000000000abcd) =
     "9b6c0f1e-0000-4000-8000-00000000abcd" := by decide
 example : (step (run empty C03.demoOps) (.rename 2 "a")).2 = .ok := by decide
+
+open Py.Uuid in
+example : ∀ op ∈ [Op.construct .doc "" (String.ofList (ctorId none 5)) none true,
+      Op.construct .sec "s" (String.ofList (ctorId (some "GARBAGE".toList) 6)) (some 0) true,
+      Op.newId 1 ((newId (some "{9B6C0F1E-0000-4000-8000-00000000ABCD}".toList) 7).map String.ofList)],
+    CanonOp op := by
+  intro op hop
+  simp only [List.mem_cons, List.mem_nil_iff, or_false] at hop
+  rcases hop with rfl | rfl | rfl
+  · exact ctor_op_canonical ..
+  · exact ctor_op_canonical ..
+  · exact new_id_op_canonical ..
 
 end C04
